@@ -359,6 +359,33 @@ class FileProxy:
         return iter(self._f)
 
 
+def _record_sites(cio):
+    """which call sites of atomic_write inside cogent3 does this run go through, and how is the object used?  -> list filled
+    while the run goes on: file (relative to src/cogent3), function, tmpdir= / in_zip= passed, entered through a with statement"""
+    sites = []
+    src_root = os.path.dirname(os.path.dirname(os.path.abspath(cio.__file__)))  # …/src/cogent3
+    orig_init, orig_enter = cio.atomic_write.__init__, cio.atomic_write.__enter__
+
+    def init_rec(self, path, tmpdir=None, in_zip=None, *a, **kw):
+        fr = sys._getframe(1)
+        fn = os.path.abspath(fr.f_code.co_filename)
+        if fn.startswith(src_root + os.sep):
+            self._c19_site = {"file": os.path.relpath(fn, src_root), "func": getattr(fr.f_code, "co_qualname", fr.f_code.co_name),
+                              "tmpdir_arg": tmpdir is not None, "in_zip_arg": bool(in_zip), "entered": False}
+            sites.append(self._c19_site)
+        return orig_init(self, path, tmpdir, in_zip, *a, **kw)
+
+    def enter_rec(self):
+        st = self.__dict__.get("_c19_site")
+        if st is not None:
+            st["entered"] = True
+        return orig_enter(self)
+
+    cio.atomic_write.__init__ = init_rec
+    cio.atomic_write.__enter__ = enter_rec
+    return sites
+
+
 def instrumented(job, out_fd):
     from cogent3.util import io as cio
 
@@ -399,29 +426,7 @@ def instrumented(job, out_fd):
 
     zipfile.ZipFile.close = zclose
     res = {"exc": None}
-    # which call sites of atomic_write inside cogent3 does this run go through, and how is the object used?
-    sites = []
-    src_root = os.path.dirname(os.path.dirname(os.path.abspath(cio.__file__)))  # …/src/cogent3
-    orig_init, orig_enter = cio.atomic_write.__init__, cio.atomic_write.__enter__
-
-    def init_rec(self, path, tmpdir=None, in_zip=None, *a, **kw):
-        fr = sys._getframe(1)
-        fn = os.path.abspath(fr.f_code.co_filename)
-        if fn.startswith(src_root + os.sep):
-            self._c19_site = {"file": os.path.relpath(fn, src_root), "func": getattr(fr.f_code, "co_qualname", fr.f_code.co_name),
-                              "tmpdir_arg": tmpdir is not None, "in_zip_arg": bool(in_zip), "entered": False}
-            sites.append(self._c19_site)
-        return orig_init(self, path, tmpdir, in_zip, *a, **kw)
-
-    def enter_rec(self):
-        st = self.__dict__.get("_c19_site")
-        if st is not None:
-            st["entered"] = True
-        return orig_enter(self)
-
-    if job["mode"] == "trace":
-        cio.atomic_write.__init__ = init_rec
-        cio.atomic_write.__enter__ = enter_rec
+    sites = _record_sites(cio) if job["mode"] == "trace" else []
     tr.active = True
     try:
         run_writer(job["writer"], job["target"], os.path.join(job["workdir"], job["dest"]), "new", job["mode"] == "natural")
@@ -491,6 +496,9 @@ def resume_run(job, out_fd):
 
     sys.addaudithook(hook)
     res = {"exc": None}
+    from cogent3.util import io as cio
+
+    sites = _record_sites(cio)
     try:
         if job.get("with_log", True):
             app.apply_to(job["inputs"], cleanup=True, show_progress=False)  # default logger: the log is stored in the data store
@@ -500,6 +508,7 @@ def resume_run(job, out_fd):
         res["exc"] = type(e).__name__ + ": " + str(e)[:200]
     res["opens"] = state["opens"]
     res["created"] = state["created"]
+    res["sites"] = sites
     os.write(out_fd, json.dumps(res).encode())
     os._exit(0)
 
